@@ -88,6 +88,11 @@ def groups(tier, seed):
     for s in range(2):
         gs.append({"name": "rosenbrock-%d" % s, "fam": "rosenbrock", "n": 2, "part": "B", "shard": s, "nshards": 2})
     gs.append({"name": "cos1d", "fam": "cos1d", "n": 1, "part": "B", "shard": 0, "nshards": 1})
+    # log barrier that is NaN outside (-1,1)^2 inside a LARGER box: trial points can have NaN objective / gradient / optimality
+    # (added after a seeded change that treated a NaN optimality as converged went undetected)
+    gs.append({"name": "barrier", "fam": "barrier", "n": 2, "part": "B", "shard": 0, "nshards": 1})
+    # naive softplus: value inf and gradient NaN (inf/inf) at far trial points
+    gs.append({"name": "softplus", "fam": "softplus", "n": 2, "part": "B", "shard": 0, "nshards": 1})
     for k in range(12):
         gs.append({"name": "projections-%02d" % k, "fam": "proj", "n": 0, "shard": k, "nshards": 12})
     return gs
@@ -193,6 +198,14 @@ def run_group(g, tier, seed, rec):
         d = {"a": 1.0, "bb": 100.0}
         centre = onp.array([1.0, 1.0])
         famlab = "rosenbrock"
+    elif fam == "barrier":
+        d = {"c": onp.array([2.0, -0.3]), "mu": 0.1}
+        centre = onp.array([0.9, -0.25])
+        famlab = "barrier"
+    elif fam == "softplus":
+        d = {"c": onp.array([0.5, 0.25])}
+        centre = onp.array([0.0, math.log(0.25 / 0.75)])
+        famlab = "softplus"
     else:
         d = {"t": 0.0}
         centre = onp.array([math.pi])
@@ -218,7 +231,19 @@ def run_group(g, tier, seed, rec):
         return _sub(*a, **k)
     SPG.solve_spg_subproblem = my_sub
 
-    if fam == "cos1d":
+    if fam == "barrier":
+        inf = onp.inf
+        sts = [("zero", onp.array([0.0, 0.0])), ("nearwall", onp.array([0.999, -0.999])), ("mid", onp.array([0.5, -0.2]))]
+        problems = [("box=tt:wider", onp.array([-2.0, -2.0]), onp.array([2.0, 2.0]), sts),
+                    ("box=lf:onesided", onp.array([-0.5, -inf]), onp.array([inf, inf]), sts),
+                    ("box=tt:inside", onp.array([-0.9, -0.9]), onp.array([0.5, 0.9]), sts[:1] + sts[2:])]
+    elif fam == "softplus":
+        inf = onp.inf
+        sts = [("flat-left", onp.array([-20.0, -20.0])), ("zero", onp.array([0.0, 0.0])), ("mixed", onp.array([-20.0, 30.0]))]
+        problems = [("box=ll:onesided", onp.array([-30.0, -30.0]), onp.array([inf, inf]), sts),
+                    ("box=tt:huge", onp.array([-30.0, -30.0]), onp.array([2000.0, 2000.0]), sts),
+                    ("box=ff:free", onp.array([-inf, -inf]), onp.array([inf, inf]), sts)]
+    elif fam == "cos1d":
         u = R.tan_fixed_point()
         problems = [("box=t:crafted", onp.array([-100.0]), onp.array([100.0]),
                      [("newton-to-maximiser", onp.array([math.pi + u])), ("half", onp.array([0.5])),
@@ -240,6 +265,9 @@ def run_group(g, tier, seed, rec):
                     continue
                 cid = "fam=%s;n=%d;basis=%s;%s;start=%s;%s" % (famlab, n, g.get("basis", "-"), bl, sl, cfgid)
                 if not rec.want(cid):
+                    continue
+                if cval["entry"] == "solve-warm" and fam == "softplus":
+                    rec.branch("skipped:warm-start-needs-positive-definite-hessian")      # Hessian ~ 2e-9 on the flat part
                     continue
                 if cval["entry"] == "solve-warm" and fam == "quartic":
                     w = onp.linalg.eigvalsh(R.q_hess(onp.asarray(x0, dtype=float), d))
@@ -374,9 +402,10 @@ def run_group(g, tier, seed, rec):
                                 sigs.append(("objective-increase-at-accepted-iterate", {"from": a, "to": b, "index": i + 1}))
                             break
                 if ok:
-                    gr = rgrad(xr, d)
-                    pg = onp.clip(xr - gr, lb, ub) - xr
-                    on = float(onp.linalg.norm(pg))
+                    with onp.errstate(all="ignore"):
+                        gr = rgrad(xr, d)
+                        pg = onp.clip(xr - gr, lb, ub) - xr
+                        on = float(onp.linalg.norm(pg))
                     rec.track_max("optimality_over_tol_at_success", on / cval["tol"])
                     allow = R.grad_allowance(fam, xr, d)
                     if not on < cval["tol"] * (1 + 1e-6) + 1e-13 + allow:
